@@ -169,6 +169,12 @@ def run_plan_checked(plan: dict, stats: Stats | None) -> tuple[bool, list[str]]:
             tags = [f"fault:kill-{f['helper']}-{f['signal']}"]
         if out["verdict"] == "harness-error":
             raise common.HarnessError(f"case runner failed: {out.get('exc')}")
+        if out["verdict"] == "hang" and f.get("stubborn") and not reached:
+            # the scheduler queued the failing task BEHIND its minutes-long sibling (same worker) instead of next to it: the fault never
+            # happened, and a run that waits for a task that is still running is not hanging. Nothing learnt from this plan
+            if stats is not None:
+                stats.inconclusive += 1
+            return False, tags + ["stubborn_sibling_ran_first"]
         if out["verdict"] == "hang":
             raise Violation(f"{what}: run() did not end within {2 * DEADLINE_S}s (confirmed by a second run)", "hang")
         tags.append("verdict:" + out["verdict"])
